@@ -521,6 +521,8 @@ def truth_term(E, v):
         raise Undecided("truth value of an array with more than one element")
     if isinstance(v, SCell):
         raise Undecided("truth value of an array")
+    if isinstance(v, SOpaque) and "truth" in v.attrs:
+        return v.attrs["truth"]
     if isinstance(v, (SObj, SOpaque)):
         return True
     return True
